@@ -1504,7 +1504,7 @@ def mutate_hex(rng, h):
         # overwrite some 16-bit aligned word with an interesting value
         i = rng.randrange(0, max(1, len(b) - 1)) & ~1
         v = rng.choice([0, 1, 2, 3, 4, 5, 16, 255, 256, 0x7fff, 0x8000, 0xffff, len(b), len(b) + 1, max(0, len(b) - 1)])
-        b[i: i + 2] = v.to_bytes(2, "big")
+        b[i: i + 2] = (v & 0xFFFF).to_bytes(2, "big")      # buffers above 64 KiB exist (resized lists): keep the word in range
         return hx(b)
     if kind == "splice":
         i, j = sorted([rng.randrange(len(b)), rng.randrange(len(b))])
@@ -1532,7 +1532,10 @@ def mutate_scenarios(rng, encoded, per=2):
                 if o["op"] == "parse":
                     h = o["hex"]
                     if i == victim:
-                        h = mutate_hex(rng, h)
+                        try:
+                            h = mutate_hex(rng, h)
+                        except (OverflowError, ValueError, IndexError):
+                            pass                       # a mutation that cannot be expressed leaves the input as it is
                     new.append({"op": "parse", "p": o["p"], "hex": h, "want": o.get("want", WANT_ALL)})
                 else:
                     new.append(o)
